@@ -3702,9 +3702,22 @@ func (c *ControlPlane) ReuseDNSControllerFrom(previous *ControlPlane) bool {
 	if c == nil || previous == nil {
 		return false
 	}
+	option := c.dnsControllerOption()
+	// The controller is only reused when the DNS section is unchanged, and dnsControllerOption does not
+	// carry the cache behaviour settings: keep the ones the controller was configured with instead of
+	// resetting optimistic_cache, optimistic_cache_ttl, max_cache_size and ip_version_prefer to defaults.
+	if prev := previous.dnsController; prev != nil && prev.dnsControllerStore != nil {
+		option.OptimisticCache, option.OptimisticCacheTtl, option.MaxCacheSize = prev.currentOptimisticCacheConfig()
+		switch prev.currentQtypePrefer() {
+		case dnsmessage.TypeA:
+			option.IpVersionPrefer = int(IpVersionPrefer_4)
+		case dnsmessage.TypeAAAA:
+			option.IpVersionPrefer = int(IpVersionPrefer_6)
+		}
+	}
 	return c.reuseDNSControllerFrom(
 		&previous.controlPlaneDNSRuntime,
-		c.dnsControllerOption(),
+		option,
 		c.dnsRouting,
 		c.log,
 		previous.SetDNSHandoffController,
